@@ -131,8 +131,10 @@ CLAIMED.update({
          "trusts go/types, go/cfg, the checker's MPCal front end and the tables in checker/rules/spectables.go",
          "DESIGN.md section 4, C16"),
 })
+_RT = " Round 5: the runtime rules of C01 (atomic critical sections: driver ordering, rollback, forwarding, joins, error propagation) and C06 (mailboxes / channels as reliable FIFO exactly-once links) are decided under this property as well - the specification's invariants are argued for atomic labelled steps over such links, and a change that breaks either (a dirty-set that forgets read-last variables, a receiver that publishes before acknowledging) breaks them in the generated system."
 ADD5 = {
- "C08": " Round 5: RAFT-DECISION - a protocol table over raftkvs.tla itself (quorum, vote granting, term adoption, log-consistency check, truncate / append, commit rule, apply loop), compared by truth table, so that an edit made consistently in the specification and the Go is still reported.",
+ "C09": _RT, "C14": _RT, "C15": _RT, "C16": _RT,
+ "C08": _RT + " RAFT-DECISION - a protocol table over raftkvs.tla itself (quorum, vote granting, term adoption, log-consistency check, truncate / append, commit rule, apply loop), compared by truth table, so that an edit made consistently in the specification and the Go is still reported.",
  "C13": " Round 5: value and snapshot absorb the same received state (CRDT-SNAPSHOT snapshot-merges-what-the-value-merges).",
 }
 for d in (ADD, ADD3, ADD4, ADD5):
